@@ -362,6 +362,8 @@ func decodedComplete(c *Ctx, rule string, specs ...inboundSpec) {
 // ---------------------------------------------------------------- C01
 
 func ruleC01(c *Ctx) {
+	c.rule("C01-R10", "the tree between verification and decode is changed only by the operations the library uses for that (frozen table of mutating etree / canonicaliser calls and node-field stores; anything else must act on a tree the function made itself): a debug dump that indents, abbreviates or re-roots the verified element changes what is decoded")
+	treeHygiene(c, "C01-R10", c09Roots[:6])
 	c.rule("C01-R1", "decode-from-verified: with validation on, the returned Response is decoded from the element returned by a successful dsig Validate of the parsed root; or (unsigned root) from the raw root with Assertions and EncryptedAssertions reset to empty before any append")
 	c.rule("C01-R2", "append-only-verified: every append to Response.Assertions appends an Assertion decoded from Validate(NSDetatch(child)) with nil error, where child is a direct child of the traversed root")
 	c.rule("C01-R3", "single continuation: only err == dsig.ErrMissingSignature at the root site continues; every other verification error (and a missing signature on an assertion) rejects")
@@ -807,6 +809,7 @@ func ruleC02(c *Ctx) {
 	c.rule("C02-R5", "the trust store is read-only for the library: no store, append or mutating call reaches sp.IDPCertificateStore or the certificates it hands out (filtered view of the C17-R1 effect scan) — an in-place filter over Certificates() rewrites the application's Roots and un-trusts a key")
 	configUntouched(c, "C02-R5", "the IdP certificate store", []string{"IDPCertificateStore"})
 	c.rule("C02-R4", "only goxmldsig decides that a message is unsigned: with validation enabled every accepting path of the three validators has called dsig Validate on the parsed root element (no cheaper pre-check may classify a message as unsigned and skip the verification of a signature that is present but placed unusually)")
+	c.rule("C02-R6", "the tree handed to the root-level signature check is the parsed tree: on every path of the three validators no tree-changing operation (mutating etree call, module function that is not tree-pure, unmodelled call that can reach the tree) lies between parseResponse and the first dsig Validate")
 	ctxWiring(c, "C02-R1")
 	total := 0
 	for _, spec := range []inboundSpec{ssoSpec, loRespSpec, loReqSpec} {
@@ -838,6 +841,50 @@ func ruleC02(c *Ctx) {
 				o.Path = t.pathDesc(c.P)
 			}
 		}
+		// R6: the tree handed to the root-level check is the tree that was parsed — nothing between parseResponse and the
+		// first dsig Validate changes it (a diagnostics helper that re-roots the Signature element to decode its KeyInfo
+		// takes the signature out of the message, and goxmldsig then reports "no signature")
+		nR6 := 0
+		for _, t := range res.Terms {
+			var parsed, first *Event
+			for _, e := range t.St.events {
+				if (e.Kind == EvCall || e.Kind == EvExit) && shortName(e.Callee) == "parseResponse" {
+					parsed = e
+				}
+				if first == nil && parsed != nil && e.Kind == EvCall && shortName(e.Callee) == dsigValidate {
+					first = e
+				}
+			}
+			if parsed == nil || first == nil {
+				continue
+			}
+			nR6++
+			// the parse call itself is one tree-changing operation when it is not inlined
+			base := parsed.TreeEpoch
+			if parsed.Kind == EvCall {
+				base++
+			}
+			if first.TreeEpoch == base {
+				c.ok("C02-R6", shortFn(res.Root), "parsed tree unchanged up to the root signature check", c.P.InstrPos(first.Instr), "no tree-changing operation between parseResponse and dsig Validate")
+			} else {
+				culprit := ""
+				for _, e := range t.St.events {
+					if e.Seq > parsed.Seq && e.Seq < first.Seq && e.Kind == EvCall && e.TreeEpoch >= base && culprit == "" {
+						for _, e2 := range t.St.events {
+							if e2.Seq > e.Seq && e2.TreeEpoch > e.TreeEpoch {
+								culprit = shortName(e.Callee) + " at " + c.P.InstrPos(e.Instr)
+								break
+							}
+						}
+					}
+				}
+				o := c.bad("C02-R6", shortFn(res.Root), "parsed tree unchanged up to the root signature check", c.P.InstrPos(first.Instr),
+					"the message tree is changed between parsing and the root-level signature check ("+culprit+"): what goxmldsig examines is not what was received, so a present signature can go unnoticed")
+				o.Path = t.pathDesc(c.P)
+			}
+		}
+		c.count("C02-R6/paths "+shortFn(res.Root), nR6)
+		c.floor("C02-R6/paths "+shortFn(res.Root), 2)
 		c.count("C02-R4/validating-accepting-paths "+shortFn(res.Root), nR4)
 		c.floor("C02-R4/validating-accepting-paths "+shortFn(res.Root), 2)
 		for _, t := range res.Terms {
